@@ -1,8 +1,9 @@
 #!/bin/bash
-# usage: all_seeds.sh [tier]   re-applies every kept seeded change to /repo in turn, runs the property's check,
+# usage: all_seeds.sh [tier] [regex on the seed name]   re-applies every kept seeded change to /repo in turn, runs the property's check,
 # expects a VIOLATION line, restores /repo. Prints one line per seed; exit 1 if any seed is missed.
 set -u
 TIER=${1:-quick}
+ONLY=${2:-.}
 export GOFLAGS=-mod=mod GOPROXY=off GOSUMDB=off GOTOOLCHAIN=local
 cd /repo || exit 2
 if [ -n "$(git status --porcelain)" ]; then echo "repo dirty"; exit 2; fi
@@ -11,6 +12,7 @@ missed=0
 for d in /verif/seeded/*/; do
   n=$(basename "$d"); p=${n%%-*}
   [ -f "$d/patch.diff" ] || continue
+  echo "$n" | grep -Eq "$ONLY" || continue
   # some seeds predate later fix commits; apply with 3-way fallback
   if ! git -C /repo apply "$d/patch.diff" 2>/dev/null; then echo "$n: patch no longer applies"; continue; fi
   out=$(cd /verif && ./check "$p" --tier "$TIER" 2>&1)
